@@ -287,6 +287,11 @@ def check(an: Analysis) -> None:
             w = g.must_pass(lambda n: n in wr, exits=("exit-return",), skip_edge=normal_only)
             if w is not None:
                 ob.fail(f, wr[0].ast, "a normal path leaves the wrapper without __wrapped__", CFG.show_path(w))
+            upd = [n for n in g.nodes if n.kind == "call" and isinstance(n.ast.func, ast.Attribute) and n.ast.func.attr == "update" and "__dict__" in ast.unparse(n.ast.func.value)]  # type: ignore[union-attr]
+            for u in upd:
+                w = g.search([wr[0]], lambda n, u=u: n is u, skip_edge=normal_only)
+                if w is not None:
+                    ob.fail(f, wr[0].ast, "__wrapped__ is set before the wrapped function's __dict__ is copied: a __wrapped__ already present there (stacked helpers, functools.wraps) overwrites the reference to the original", CFG.show_path(w))
         for r in [r for r in f.own_nodes() if isinstance(r, ast.Return)]:
             if not is_name(unwrap(r.value), tgt):
                 ob.fail(f, r, "the mimic does not return the wrapper it was given")
